@@ -76,4 +76,92 @@ theorem net_in_net_iff (w v p u q : Nat) (hv : v < 2 ^ w) (hu : u < 2 ^ w) (hp :
     have hk : w - q ≤ w - p := (Nat.pow_le_pow_iff_right (by decide : 1 < 2)).1 hle
     omega
 
+/-- `IPNetwork.__contains__` (shift-compare; IPRange special case) is interval inclusion for
+    every kind of operand. -/
+theorem netContains_iff (y : Net) (x : Obj) (hy : y.WF) (hx : x.WF) :
+    netContains y x = true ↔ (x.ver = y.ver ∧ y.first ≤ x.first ∧ x.last ≤ y.last) := by
+  obtain ⟨_, hyv, hyp⟩ := hy
+  unfold netContains
+  by_cases hver : y.ver = x.ver
+  · have hne : (y.ver != x.ver) = false := by simp [hver]
+    rw [hne]
+    simp only [Bool.false_eq_true, if_false]
+    cases x with
+    | addr a =>
+      simp only [Obj.ver, Obj.first, Obj.last] at hver ⊢
+      rw [beq_iff_eq, shr_eq_iff _ _ _ _ hyv]
+      unfold Net.first Net.last; simp [hver]
+    | rng r =>
+      simp only [Obj.ver, Obj.first, Obj.last] at hver ⊢
+      rw [Bool.and_eq_true, decide_eq_true_iff, decide_eq_true_iff, shr_shl, Nat.shiftRight_eq_div_pow,
+        Nat.shiftLeft_eq]
+      unfold Net.first Net.last
+      rw [netFirst_eq _ _ _ hyv, netLast_eq]
+      have hB := pw (width y.ver - y.plen)
+      rw [Nat.add_mul, Nat.one_mul]
+      simp only [hver, true_and]
+      rw [← hver]
+      omega
+    | net n =>
+      simp only [Obj.ver, Obj.first, Obj.last] at hver ⊢
+      obtain ⟨_, hnv, hnp⟩ := hx
+      rw [← hver] at hnv hnp
+      rw [Bool.and_eq_true, beq_iff_eq, decide_eq_true_iff,
+        net_in_net_iff _ _ _ _ _ hyv hnv hyp hnp]
+      unfold Net.first Net.last
+      simp [hver]
+  · have hne : (y.ver != x.ver) = true := by simp [hver]
+    rw [hne]; simp only [if_true]
+    constructor
+    · intro h; cases h
+    · rintro ⟨h, _⟩; exact absurd h.symm hver
+
+/-- `IPRange.__contains__` (and `IPGlob`, which inherits it) is interval inclusion for every
+    kind of operand. -/
+theorem rngContains_iff (y : Rng) (x : Obj) (hx : x.WF) :
+    rngContains y x = true ↔ (x.ver = y.ver ∧ y.lo ≤ x.first ∧ x.last ≤ y.hi) := by
+  unfold rngContains
+  by_cases hver : y.ver = x.ver
+  · have hne : (y.ver != x.ver) = false := by simp [hver]
+    rw [hne]
+    simp only [Bool.false_eq_true, if_false]
+    cases x with
+    | addr a =>
+      simp only [Obj.ver, Obj.first, Obj.last] at hver ⊢
+      rw [Bool.and_eq_true, decide_eq_true_iff, decide_eq_true_iff]
+      simp [hver]
+    | rng r =>
+      simp only [Obj.ver, Obj.first, Obj.last] at hver ⊢
+      rw [Bool.and_eq_true, decide_eq_true_iff, decide_eq_true_iff]
+      simp [hver]
+    | net n =>
+      simp only [Obj.ver, Obj.first, Obj.last] at hver ⊢
+      obtain ⟨_, hnv, hnp⟩ := hx
+      rw [Bool.and_eq_true, decide_eq_true_iff, decide_eq_true_iff, shr_shl, Nat.shiftLeft_eq, Nat.one_mul]
+      unfold Net.first Net.last
+      rw [netFirst_eq _ _ _ hnv, netLast_eq]
+      have hB := pw (width n.ver - n.plen)
+      simp only [hver, true_and]
+      omega
+  · have hne : (y.ver != x.ver) = true := by simp [hver]
+    rw [hne]; simp only [if_true]
+    constructor
+    · intro h; cases h
+    · rintro ⟨h, _⟩; exact absurd h.symm hver
+
+/-- `IPListMixin.__contains__` is interval inclusion for every kind of operand. -/
+theorem mixinContains_iff (y : Cont) (x : Obj) :
+    mixinContains y x = true ↔ (x.ver = y.ver ∧ y.first ≤ x.first ∧ x.last ≤ y.last) := by
+  unfold mixinContains
+  by_cases hver : y.ver = x.ver
+  · have hne : (y.ver != x.ver) = false := by simp [hver]
+    rw [hne]
+    simp only [Bool.false_eq_true, if_false]
+    cases x <;> simp [Obj.first, Obj.last, hver] <;> intro _ <;> exact decide_eq_true_iff
+  · have hne : (y.ver != x.ver) = true := by simp [hver]
+    rw [hne]; simp only [if_true]
+    constructor
+    · intro h; cases h
+    · rintro ⟨h, _⟩; exact absurd h.symm hver
+
 end NV.Contains
